@@ -3,6 +3,8 @@ import Falcon.Lemmas.KeyCodecSk
 import Falcon.Lemmas.RecomputeG
 import Falcon.Lemmas.SignRefine
 import Falcon.Lemmas.KeygenSound
+import Falcon.Lemmas.PublicKey
+import Falcon.Props.C04
 
 /-!
 # C05 — sizes and exact round trip (format side) and the key-generation guards
@@ -179,5 +181,42 @@ theorem model_generated_keys_are_representable (chk : Bool) (N : Nat) (hN : N = 
 
 /-! ### non-vacuity -/
 example : deserializeField (intBits 6 (-31)) = some 12258 ∧ deserializeField (intBits 8 127) = some 127 := by decide
+
+/-- **every derived public key survives serialisation**: for both variants, every f whose transform has no zero slot
+    and every g (canonical residues), the public key the code derives — in either build mode — is a canonical vector of
+    length N, so it serialises to exactly 897 / 1793 bytes and `from_bytes` returns it unchanged -/
+theorem derived_public_key_roundtrips (chk : Bool) (N d : Nat) (hN : (N = 512 ∧ d = 9) ∨ (N = 1024 ∧ d = 10))
+    (f g : List Nat) (lf : f.length = N) (lg : g.length = N) (cf : ∀ x ∈ f, x < 12289) (cg : ∀ x ∈ g, x < 12289)
+    (hinv : ∀ x ∈ Ntt.ntt d f, x ≠ 0) :
+    ∃ finv h, Zq.batchInv chk (Ntt.ntt d f) = .ok finv ∧ Ntt.intt d (Ntt.hadamard (Ntt.ntt d g) finv) = .ok h ∧
+      pkFromBytes N (pkToBytes h) = .ok (.ok h) ∧ (pkToBytes h).length = 1 + N * Gen.pkWidth / 8 := by
+  have hNd : N = 2 ^ d ∧ d ≤ 10 := by rcases hN with ⟨rfl, rfl⟩ | ⟨rfl, rfl⟩ <;> exact ⟨by decide, by decide⟩
+  obtain ⟨hNd, hd⟩ := hNd
+  obtain ⟨finv, h, h1, h2, lh, ch, _, _⟩ := Ntt.public_key_is_g_over_f chk d hd f g (by rw [lf, hNd]) (by rw [lg, hNd]) cf cg hinv
+  have hN' : N = 512 ∨ N = 1024 := by rcases hN with ⟨a, _⟩ | ⟨a, _⟩ <;> simp [a]
+  obtain ⟨r1, r2⟩ := public_key_roundtrip N hN' h (by rw [lh, hNd]) ch
+  exact ⟨finv, h, h1, h2, r1, r2⟩
+
+/-- **a generated secret key survives serialisation completely — for every seed**: for both variants, a key returned by
+    the modelled key generation serialises (both build modes, no overflow) to exactly 1281 / 2305 bytes; `from_bytes`
+    accepts them and returns the residues of the same f, g, F; and the fourth polynomial, which is not stored but
+    recomputed as intt(ntt g ⊙ (ntt f)⁻¹ ⊙ ntt F), comes out as exactly G.  So the decoded key is the generated key (and
+    therefore signs what the original public key verifies).  Hypothesis beyond the run: `window=ok` for the key (C04). -/
+theorem generated_secret_key_survives_serialisation (chk : Bool) (N j : Nat) (hN : (N = 512 ∧ j = 8) ∨ (N = 1024 ∧ j = 9))
+    (seed : List Nat) (f g cF cG : List Int) (k : Nat)
+    (h : Keygen.ntruGen chk N seed = .ok (.key f g cF cG k)) (hw : Keygen.entryWindow f g = true) :
+    ∃ b finv cg', skToBytes chk f g cF = .ok b ∧ b.length = (if N = 512 then 1281 else 2305) ∧
+      skFromBytes N b = .ok (.ok (f.map Zq.new, g.map Zq.new, cF.map Zq.new)) ∧
+      Zq.batchInv chk (Ntt.ntt (j + 1) (Ntt.toZq f)) = .ok finv ∧
+      Ntt.intt (j + 1) (Ntt.hadamard (Ntt.hadamard (Ntt.ntt (j + 1) (Ntt.toZq g)) finv) (Ntt.ntt (j + 1) (Ntt.toZq cF))) = .ok cg' ∧
+      cg'.map (fun (a : Nat) => if a > 6144 then (a : Int) - 12289 else (a : Int)) = cG := by
+  obtain ⟨lf, lg, lF, lG, hntru, hinv, hcap⟩ := C04.model_generated_keys_are_ntru_trapdoors chk N j hN seed f g cF cG k h hw
+  have hN' : N = 512 ∨ N = 1024 := by rcases hN with ⟨a, _⟩ | ⟨a, _⟩ <;> simp [a]
+  have hNj : N = 2 ^ (j + 1) ∧ j + 1 ≤ 10 := by rcases hN with ⟨rfl, rfl⟩ | ⟨rfl, rfl⟩ <;> exact ⟨by decide, by decide⟩
+  obtain ⟨hNj, hj⟩ := hNj
+  obtain ⟨b, h1, h2, h3⟩ := model_generated_keys_are_representable chk N hN' seed f g cF cG k h lf lg lF
+  obtain ⟨finv, cg', h4, h5, h6⟩ := recomputed_G_is_G chk (j + 1) hj f g cF cG (by rw [lf, hNj]) (by rw [lg, hNj])
+    (by rw [lF, hNj]) (by rw [lG, hNj]) (by rw [← hNj]; exact hntru) hinv (fun x hx => hcap x (by simp [hx]))
+  exact ⟨b, finv, cg', h1, h2, h3, h4, h5, h6⟩
 
 end Falcon.Props.C05
